@@ -81,11 +81,63 @@ def lit_value(v):
     return '[' + ', '.join('[' + ', '.join(ent[i * c:(i + 1) * c]) + ']' for i in range(r)) + ']'
 
 
+def decimal_text(q):
+    """exact decimal expansion of a rational with a terminating expansion (else repr of the float)"""
+    n, d = q
+    k, dd = 0, d
+    while dd % 10 == 0:
+        dd //= 10
+        k += 1
+    while dd % 2 == 0:
+        dd //= 2
+        k += 1
+    while dd % 5 == 0:
+        dd //= 5
+        k += 1
+    if dd != 1:
+        return repr(n / d)
+    digits = str(abs(n) * 10 ** k // d).rjust(k + 1, '0')
+    text = digits[:len(digits) - k] + ('.' + digits[len(digits) - k:] if k else '')
+    if '.' in text:
+        text = text.rstrip('0').rstrip('.') or '0'
+    return ('-' if n < 0 else '') + text
+
+
+def sci_text(q):
+    """the same number in scientific notation, mantissa exact: 0.004 -> 4e-3, 1000 -> 1e3"""
+    text = decimal_text(q)
+    if 'e' in text or text in ('0',):
+        return text
+    if '.' in text:
+        whole, fr = text.split('.')
+        digits = (whole + fr).lstrip('0')
+        return '%se-%d' % (digits, len(fr))
+    stripped = text.rstrip('0')
+    return '%se%d' % (stripped, len(text) - len(stripped))
+
+
 def tol_py(tol):
+    """the 'tolerance' option as an author writes it.  tol['sp'] chooses among equivalent spellings."""
     n, d = tol['v']
+    sp = tol.get('sp', 'default')
     if tol['kind'] == 'abs':
-        return n if d == 1 else n / d
-    return ('%d%%' % n) if d == 1 else ('%r%%' % (n / d))
+        if sp == 'default':
+            return n if d == 1 else n / d
+        if sp == 'int' and d == 1:
+            return n
+        return float(sci_text(tol['v'])) if sp == 'sci' else n / d
+    if sp == 'default':
+        return ('%d%%' % n) if d == 1 else ('%r%%' % (n / d))
+    if sp == 'sci':
+        return sci_text(tol['v']) + '%'
+    text = decimal_text(tol['v'])
+    if sp == 'padded':
+        return '  ' + text + '%  '
+    if sp == 'zeros':
+        return '0' + (text + '0' if '.' in text else text + '.0') + '%'
+    if sp == 'float' and '.' not in text and 'e' not in text:
+        return text + '.0%'
+    return text + '%'
 
 
 def credit_py(q):
@@ -110,7 +162,24 @@ def student_text(form, X, P):
         return '%s^2' % X
     if form in ('conj', 're', 'trans'):
         return '%s(%s)' % (form, X)
+    if form == 'sgn':
+        return 'abs(%s)/%s*%s' % (X, X, P)
+    if form == 'times':
+        return '%s*%s' % (P, X)
+    if form == 'plus0':
+        return '%s + 0*%s' % (P, X)
     raise ValueError(form)
+
+
+ID_ANS = {'form': 'id', 'sp': 'lit'}
+
+
+def answer_text(ans, X='x'):
+    """the author's answer: the variable itself, or a constant expression that does not mention it"""
+    if ans['form'] == 'id':
+        return X
+    lit = lit_value(ans['k'])
+    return lit if ans.get('sp', 'lit') == 'lit' else '%s*pi/pi' % lit
 
 
 def same_draws(draws, script):
@@ -145,8 +214,9 @@ def configured_grader(c, with_d):
     ScriptedSampler instances: their script is replaced and their record of draws cleared before every call."""
     from engine.fixtures import ScriptedSampler
     from mitxgraders import FormulaGrader, MatrixGrader
-    key = (c['grader'], c['tol']['kind'], tuple(c['tol']['v']), c['n'], c['failable'], tuple(c['credit']),
-           c['part'] == 'inf', with_d)
+    answer = answer_text(c.get('ans', ID_ANS))
+    key = (c['grader'], c['tol']['kind'], tuple(c['tol']['v']), c['tol'].get('sp'), c['n'], c['failable'],
+           tuple(c['credit']), c['part'] == 'inf', with_d, answer)
     hit = _GRADERS.get(key)
     if hit is None:
         sx = ScriptedSampler(script=[1.0])
@@ -155,7 +225,7 @@ def configured_grader(c, with_d):
             sd = ScriptedSampler(script=[1.0])
             variables.append('d')
             sample_from['d'] = sd
-        cfg = dict(tolerance=tol_py(c['tol']), answers={'expect': 'x', 'grade_decimal': credit_py(c['credit'])},
+        cfg = dict(tolerance=tol_py(c['tol']), answers={'expect': answer, 'grade_decimal': credit_py(c['credit'])},
                    variables=variables, sample_from=sample_from, samples=c['n'], failable_evals=c['failable'])
         if c['grader'] == 'M':
             cfg['max_array_dim'] = 2
@@ -186,7 +256,7 @@ def run_form_case(c):
             cfg['allow_inf'] = True
         g = NumericalGrader(**cfg)
     else:
-        answer = 'x'
+        answer = answer_text(c.get('ans', ID_ANS))
         g, sx, sd = configured_grader(c, form == 'addvar')
         script = [value_py(v) for v in c['xs']]
         sx.config['script'] = script
@@ -238,6 +308,13 @@ def exact_student(form, x, p):
         return [(a[0], -a[1]) for a in x]
     if form == 're':
         return [(a[0], Fraction(0)) for a in x]
+    if form == 'sgn':
+        sg = 1 if x[0][0] > 0 else -1
+        return [(sg * a[0], sg * a[1]) for a in p]
+    if form == 'times':
+        return [(p[0][0] * a[0], p[0][0] * a[1]) for a in x]
+    if form == 'plus0':
+        return list(p)
     raise ValueError(form)
 
 
@@ -268,7 +345,7 @@ def float_exact(c):
     if tol['kind'] == 'pct':
         r = t / 100
         text = tol_py(tol)
-        if not is_float(r) or Fraction(float(text[:-1]) * 0.01) != r:
+        if not is_float(r) or Fraction(float(text.strip()[:-1]) * 0.01) != r:
             return False
     elif not is_float(t):
         return False
@@ -283,10 +360,13 @@ def float_exact(c):
         else:
             s = exact_student(form, x, pe)
         nums = [q for z in x + pe + s for q in z]
-        diff = [(a[0] - b[0], a[1] - b[1]) for a, b in zip(x, s)]
+        ans = c.get('ans', ID_ANS)
+        e = x if ans['form'] == 'id' else [exact_entry(z) for z in ans['k']['ent']]
+        nums += [q for z in e for q in z]
+        diff = [(a[0] - b[0], a[1] - b[1]) for a, b in zip(e, s)]
         nums += [q for z in diff for q in z]
         d2 = sum(z[0] * z[0] + z[1] * z[1] for z in diff)
-        e2 = sum(z[0] * z[0] + z[1] * z[1] for z in x)
+        e2 = sum(z[0] * z[0] + z[1] * z[1] for z in e)
         dn = sqrt_exact(d2)
         if dn is None:
             return False
@@ -431,6 +511,8 @@ def violation_class(c, allowed, observed, margins=None):
     if observed.startswith('other:'):
         return 'credit-not-answer-credit'
     kind = 'percentage' if c['tol']['kind'] == 'pct' else 'absolute'
+    if c.get('ans', ID_ANS)['form'] == 'const':
+        kind = 'constant-answer-' + kind
     if c['part'] == 'inf' or any(v.get('inf') for v in c.get('xs', [])):
         return 'infinity-comparison'
     if margins and 'edge' in margins or margins and 'edge0' in margins:
@@ -595,9 +677,98 @@ def rand_verdict_case(rng, i):
         pshape = ()
         par = [p[:1] for p in par]
     rec = {'id': i, 'kind': 'verdict', 'grader': grader, 'part': 'trace', 'tol': {'kind': tkind, 'v': rq(t)}, 'n': n,
+           'ans': id_ans(),
            'failable': failable, 'credit': rq(credit), 'xs': [val(shape, e) for e in xs], 'form': form,
            'par': [val(pshape, p) for p in par]}
     return rec
+
+
+def id_ans():
+    return {'form': 'id', 'k': val((), [(Fraction(0), Fraction(0))]), 'sp': 'lit'}
+
+
+def rand_credit_failable(rng, n):
+    return (rng.choice([Fraction(1), Fraction(1), Fraction(1, 2), Fraction(1, 4), Fraction(3, 4)]),
+            rng.choice([0, 0, 1, 1, 2, 3, max(n - 1, 0), n, 8]))
+
+
+FINE_FACTORS = [Fraction(0), Fraction(1, 2), Fraction(4, 5), Fraction(9, 10), Fraction(11, 10), Fraction(6, 5), Fraction(2)]
+
+
+def rand_fine_case(rng, i):
+    """Tolerances with 3-5 decimals, very large ones and odd spellings; deviations are multiples of the tolerance.
+    Real scalars in all three graders (x small so that x*(1+eps) stays inside 32-bit integers), arrays in MatrixGrader
+    with x*(1+eps) under a percentage tolerance (judged through scale invariance)."""
+    grader = rng.choice(['F', 'F', 'M', 'N'])
+    n = 1 if grader == 'N' else rng.randint(1, 6)
+    credit, failable = rand_credit_failable(rng, n)
+    if grader == 'N':
+        failable = 0
+    tkind = rng.choice(['pct', 'pct', 'abs'])
+    if tkind == 'pct':
+        t = rng.choice([Fraction(rng.randint(1, 200), 10 ** rng.choice([3, 4])), Fraction(rng.randint(150, 5000)),
+                        Fraction(rng.randint(1, 999), 1000) + rng.randint(0, 30)])
+        sp = rng.choice(['plain', 'sci', 'padded', 'zeros'])
+        r = t / 100
+    else:
+        t = rng.choice([Fraction(rng.randint(1, 200), 10 ** rng.choice([3, 4, 5])), Fraction(rng.randint(100, 5000))])
+        sp = rng.choice(['plain', 'sci'] + (['int'] if t.denominator == 1 else []))
+    sign = lambda: rng.choice([1, -1])
+    zero = (Fraction(0), Fraction(0))
+    if grader == 'M' and tkind == 'pct' and rng.random() < 0.5:
+        shape = rng.choice([(2,), (3,), (2, 2)])
+        k = shape[0] * (shape[1] if len(shape) == 2 else 1)
+        xs = [[(Fraction(rng.randint(-9, 9), rng.choice([1, 2])), Fraction(0)) for _ in range(k)] for _ in range(n)]
+        for ent in xs:
+            if all(a == 0 for a, _ in ent):
+                ent[0] = (Fraction(1), Fraction(0))
+        form, pshape = 'mul', ()
+        eps = r * rng.choice(FINE_FACTORS) * sign()
+        par = [[(eps, Fraction(0))]] * n
+    else:
+        shape, pshape = (), ()
+        xs = [[(Fraction(rng.choice([a for a in range(-20, 21) if a]), rng.choice([1, 2, 4, 5])), Fraction(0))] for _ in range(n)]
+        if tkind == 'pct':
+            form = rng.choice(['mul', 'addvar']) if grader != 'N' else rng.choice(['mul', 'add'])
+            if form == 'mul':
+                par = [[(r * rng.choice(FINE_FACTORS) * sign(), Fraction(0))]] * n
+            else:
+                par = [[(r * abs(x[0][0]) * rng.choice(FINE_FACTORS) * sign(), Fraction(0))] for x in xs]
+        else:
+            form = rng.choice(['add', 'addvar']) if grader != 'N' else 'add'
+            if form == 'add':
+                par = [[(t * rng.choice(FINE_FACTORS) * sign(), Fraction(0))]] * n
+            else:
+                par = [[(t * rng.choice(FINE_FACTORS) * sign(), Fraction(0))] for _ in xs]
+    return {'id': i, 'kind': 'verdict', 'grader': grader, 'part': 'trace', 'tol': {'kind': tkind, 'v': rq(t), 'sp': sp},
+            'n': n, 'ans': id_ans(), 'failable': failable, 'credit': rq(credit), 'xs': [val(shape, e) for e in xs],
+            'form': form, 'par': [val(pshape, p) for p in par]}
+
+
+def rand_cans_case(rng, i):
+    """The author's answer is a constant while the grader has a variable: the student's formula uses the variable
+    and agrees with the constant at some of the scripted samples only."""
+    grader = rng.choice(['F', 'F', 'M'])
+    n = rng.randint(2, 8)
+    credit, failable = rand_credit_failable(rng, n)
+    k = rng.choice([Fraction(2), Fraction(-1, 2), Fraction(3), Fraction(5, 4), Fraction(-3), Fraction(1, 4)])
+    pow2 = abs(k).numerator == 1 or abs(k).denominator == 1 and abs(k).numerator & (abs(k).numerator - 1) == 0
+    sp = rng.choice(['lit', 'pi']) if pow2 else 'lit'
+    tkind = rng.choice(['abs', 'pct'])
+    t = rng.choice([Fraction(0), Fraction(1, 10), Fraction(1, 2)] if tkind == 'abs'
+                   else [Fraction(0), Fraction(1, 100), Fraction(10), Fraction(50)])
+    form = rng.choice(['sgn', 'sgn', 'times', 'plus0', 'const', 'same', 'abs', 'neg'])
+    pool = [k, -k, Fraction(1), Fraction(-1), abs(k), Fraction(rng.choice([a for a in range(-12, 13) if a]), rng.choice([1, 2, 4]))]
+    xs = [[(rng.choice(pool), Fraction(0))] for _ in range(n)]
+    p = k
+    if form == 'const' and rng.random() < 0.5:
+        p = k + rng.choice([Fraction(1, 20), Fraction(-1, 4), Fraction(1)])
+    if form not in ('sgn', 'times', 'plus0', 'const'):
+        p = Fraction(0)
+    return {'id': i, 'kind': 'verdict', 'grader': grader, 'part': 'trace', 'tol': {'kind': tkind, 'v': rq(t)}, 'n': n,
+            'ans': {'form': 'const', 'k': val((), [(k, Fraction(0))]), 'sp': sp}, 'failable': failable,
+            'credit': rq(credit), 'xs': [val((), e) for e in xs], 'form': form,
+            'par': [val((), [(p, Fraction(0))])] * n}
 
 
 def as_case(rec):
@@ -740,7 +911,7 @@ def observe_chunk(cases, extra):
     return recs
 
 
-TRACE_FIELDS = {'verdict': ('id', 'kind', 'grader', 'tol', 'n', 'failable', 'credit', 'xs', 'form', 'par', 'exact', 'obs'),
+TRACE_FIELDS = {'verdict': ('id', 'kind', 'grader', 'tol', 'n', 'failable', 'credit', 'ans', 'xs', 'form', 'par', 'exact', 'obs'),
                 'rewrite': ('id', 'kind', 'tol', 'n', 'failable', 'credit', 'tree', 'stree', 'dev', 'obs')}
 
 
@@ -786,7 +957,8 @@ def run(ctx):
                     report_bad(ctx, b, 'replay')
     # code -> spec
     nv, nr = (2500, 1200) if ctx.quick else (20000, 6000)
-    cases = [rand_verdict_case(ctx.rng, i) for i in range(nv)]
+    cases = [rand_verdict_case(ctx.rng, i) if i % 5 < 3 else rand_fine_case(ctx.rng, i) if i % 5 == 3
+             else rand_cans_case(ctx.rng, i) for i in range(nv)]
     cases += [rand_rewrite_case(ctx.rng, nv + i) for i in range(nr)]
     recs = [r for chunk in dump.pmap('engine.adapters.c04', 'observe_chunk', cases, extra=ctx.seed) for r in chunk]
     draws_bad += sum(1 for r in recs if not r['draws_ok'])
